@@ -304,14 +304,16 @@ def invoker_resource_flow(facts):
     return True, f'{len(subs)} subscribe instantiation(s) -> Subscription({lf["name"]}, …) -> ConcurrentInvoker(lock, …) -> its lock member', site
 
 
-def thread_body_deletes(facts, root_name, var):
-    """the thread body named by a worker root (thread-body@file:line) deletes its captured pointer `var` on every path"""
+def thread_body_deletes(facts, root_name, var, chain=()):
+    """the thread body named by a worker root (thread-body@file:line) — or a closure it runs, found on the access's call chain —
+    deletes its captured pointer `var` on every path"""
     loc = root_name.split('@', 1)[1] if '@' in root_name else ''
+    on_chain = set(chain or ())
     for f in facts.fns:
-        if f.d.get('lambda') and f.shortloc() == loc:
+        if f.d.get('lambda') and (f.shortloc() == loc or f.name in on_chain):
             dels = [n for n in f.nodes() if n.k == 'delete' and n.n('sub') is not None and n.n('sub').k == 'ref' and n.n('sub').name == var]
-            if not dels: return False
+            if not dels: continue
             cfg = f.cfg
             pos = cfg.position(dels[0])
-            return pos is not None and pos[0] in cfg.pdom.get(cfg.entry, ())
+            if pos is not None and pos[0] in cfg.pdom.get(cfg.entry, ()): return True
     return False
